@@ -353,11 +353,14 @@ def part_F(run):
                                 le(c1s, c2s), "property", inst, replay=rp_mono, timeout=FT)
                         if qname == "qint8" and light:
                             if "A-IEEE-MONO float32" not in "".join(run.assumptions):
-                                run.assumptions.append("A-IEEE-MONO float32: division by a positive finite divisor is monotone in the dividend; attempted in the thorough tier only")
+                                run.assumptions.append("A-IEEE-MONO float32: division by a positive finite divisor is monotone in the dividend; attempted by the solvers in the thorough tier only. "
+                                                       "Reduced to the IEEE-754 definition (the quotient is a representable value nearest to the real quotient) by lemmas/Arith.lean rounded_div_monotone")
                         elif qname == "qint8" and dtype == "float16" and run.tier == "quick":
                             run.assumptions.append("A-IEEE-MONO: float16 division by a positive finite divisor is monotone in the dividend "
                                                    "(correct rounding); attempted by the solvers in the thorough tier only (cvc5 > 150 s); "
-                                                   "the bfloat16 instance of the same lemma is discharged in the quick tier")
+                                                   "the bfloat16 instance of the same lemma is discharged in the quick tier. Independently of the bit-precise attempt the lemma is reduced "
+                                                   "to the IEEE-754 definition of division (a representable value nearest to the real quotient, any tie rule) by "
+                                                   "lemmas/Arith.lean nearest_monotone / rounded_div_monotone (Lean 4 + Mathlib)")
                         elif qname == "qint8":
                             a, b = z3.Const("a", srt), z3.Const("b", srt)
                             run.add(f"C01/F-division-monotone[{dtype}]", [finite(a), finite(b), finite(s), z3.fpGT(s, z3.FPVal(0.0, srt)), z3.fpLEQ(a, b)],
@@ -431,6 +434,8 @@ def build(run):
             part(run)
         except Unsupported as u:
             run.undecide(f"C01/{part.__name__}", f"unsupported: {u}")
+    from qvc import lib
+    lib.lean_lemmas(run, ["nearest_monotone", "rounded_div_monotone"])
 
 
 # ------------------------------------------------------------------------------------------------ native replay
